@@ -86,6 +86,11 @@ func buildAndRender(seed uint64, styles []string) []string {
 	}, seed)
 	rec(hw.Render())
 	rec(hw.Render())
+	// every public field of the wrapper is the caller's to set: a template name, an id, a class
+	hn := thtml.Wrap(t)
+	hn.TemplateName, hn.Id, hn.Class = fmt.Sprintf("tmpl%d", seed%3), "i", "c"
+	rec(hn.Render())
+	rec(hn.Render())
 	rec(texttable.Wrap(t).Render())
 	rec(texttable.Render(t))
 	for _, s := range styles {
